@@ -24,6 +24,7 @@ var queueLinkFields = map[string]bool{"ParentQueue": true}
 func runC08(c *Ctx) {
 	borrow(c, "O7", "C13", "O5", "Commit does not call Discard", "undoing already committed allocations fires the deallocate handlers: the queue and its ancestors are under-counted while the pods get bound")
 	borrow(c, "O9", "C13", "O8", "plugin handlers fire after the job and node were updated", "the queue counters are charged with the task's accepted resources, which the node update computes")
+	borrow(c, "O11", "C07", "O7", "createQueueResourceAttrs", "the limit and quota enforced for a resource are the ones configured for that resource")
 	borrow(c, "O8", "C03", "O5", "only active-allocated pods are eviction candidates", "evicting a pod that is already releasing subtracts resources from the queue that were never added")
 
 	p, fx := c.P, c.Fx
@@ -360,7 +361,7 @@ func runC08(c *Ctx) {
 				} else if kk, ok := bo.X.(*ssa.Const); ok {
 					k, other = kk, bo.Y
 				}
-				if k == nil || !strings.Contains(termOf(other).String(), ".Resources.Memory.") {
+				if k == nil || !strings.Contains(termOf(other).String(), ".Resources.Memory") {
 					continue
 				}
 				n++
